@@ -442,6 +442,11 @@ class UTPM(Ring, RawAlgorithmsMixIn):
             self._pow_real(x_data, r, y_data)
             return self.__class__(y_data)
 
+    @classmethod
+    def pow(cls, x, r):
+        """ computes y = x**r in UTP arithmetic, s.t. algopy.pow dispatches to it"""
+        return x**r
+
     def __rpow__(self,r):
         # evaluate log(r) in the precision of the result (r may be a float32 scalar)
         r = numpy.asarray(r, dtype=numpy.result_type(r, self.data.dtype))
